@@ -53,8 +53,9 @@ return a +(a shl 0x2)+dbl(a)" = Ok [mkStmt $"a" (EAdd (EOperand 0) (EOperand 0))
                   mkStmt [] (EAdd (EAdd (EIdent $"a") (EShift (EIdent $"a") 2)) (EDouble (EIdent $"a")))].
 Proof. vm_compute. reflexivity. Qed.
 
-(* Known finding K1: without the dbl-class exclusion the statement is false, and no printer could make it
-   true -- `dblx + 1` is read as 2*x + 1, so the tree Add(Ident "dblx", Operand 0) has no text. *)
+(* Known finding K1: the full statement -- every tree with legal identifiers, without the dbl-class
+   exclusion -- is false, and no printer could make it true: `dblx + 1` is read as 2*x + 1, so the tree
+   Add(Ident "dblx", Operand 0) has no text at all. *)
 Fixpoint wf_expr_k1 (e : expr) : bool :=
   match e with
   | EOperand i => ((0 <=? i) && (i <? 2 ^ 63))%Z
@@ -63,8 +64,25 @@ Fixpoint wf_expr_k1 (e : expr) : bool :=
   | EShift x s => wf_expr_k1 x && (s <? 2 ^ 64)
   | EDouble x => wf_expr_k1 x
   end.
+Fixpoint wf_script_k1 (c : script) : bool :=
+  match c with
+  | [] => false
+  | [s] => match sname s with [] => wf_expr_k1 (sexpr s) | _ => false end
+  | s :: r => ident_ok (sname s) && wf_expr_k1 (sexpr s) && wf_script_k1 r
+  end.
+Definition C07_full : Prop := forall c, wf_script_k1 c = true -> parse (print_script c) = Ok c.
+
 Definition k1_tree : script := [mkStmt [] (EAdd (EIdent $"dblx") (EOperand 0))].
-Theorem C07_dbl_refuted :
-  exists t, forallb (fun s => wf_expr_k1 (sexpr s)) t = true /\ parse (print_script t) <> Ok t.
+Theorem C07_full_refuted : ~ C07_full.
+Proof. intros H. specialize (H k1_tree eq_refl). vm_compute in H. discriminate H. Qed.
+Print Assumptions C07_full_refuted.
+
+(* the same in existential form *)
+Theorem C07_dbl_refuted : exists t, wf_script_k1 t = true /\ parse (print_script t) <> Ok t.
 Proof. exists k1_tree. vm_compute. split; [reflexivity|discriminate]. Qed.
 Print Assumptions C07_dbl_refuted.
+
+(* what the printed text of the witness really means *)
+Example C07_k1_reading :
+  parse (print_script k1_tree) = Ok [mkStmt [] (EAdd (EDouble (EIdent $"x")) (EOperand 0))].
+Proof. vm_compute. reflexivity. Qed.
